@@ -34,6 +34,12 @@ func main() {
 		os.Exit(cmdCheck(os.Args[2:]))
 	case "ssa":
 		cmdSSA(os.Args[2:])
+	case "layout-gen":
+		cs, _ := LoadContracts(repoDir, externSpec)
+		_, errs := runLayout(repoDir, cs, "/verif/layout_manifest.json", true)
+		for _, e := range errs {
+			fmt.Println("layout-gen:", e)
+		}
 	default:
 		fmt.Fprintln(os.Stderr, "unknown command", os.Args[1])
 		os.Exit(2)
